@@ -40,7 +40,7 @@ def simfile_text(tl, version="0.83"):
     return "\n".join(parts) + "\n"
 
 
-SOURCES = ("ssc", "sm", "sm-freezes", "ssc-chart")
+SOURCES = ("ssc", "sm", "sm-freezes", "ssc-chart", "sm-stale-freezes", "sm-stale-freezes-first")
 
 
 def timing_data(tl):
@@ -60,8 +60,13 @@ def timing_data(tl):
         return TimingData(SMSimfile(string=body))
     if src == "sm-freezes":
         return TimingData(SMSimfile(string=body.replace("#STOPS:", "#FREEZES:")))
+    if src == "sm-stale-freezes":  # STOPS is the standard key: a FREEZES key beside it is just another key
+        return TimingData(SMSimfile(string=body + "#FREEZES:0.500=3.000,1.500=5.000;\n"))
+    if src == "sm-stale-freezes-first":
+        return TimingData(SMSimfile(string="#FREEZES:0.500=3.000,1.500=5.000;\n" + body))
     if src == "ssc-chart":
-        decoy = "#VERSION:0.83;\n#OFFSET:9.999;\n#BPMS:0.000=77.000;\n#STOPS:1.000=7.000;\n#DELAYS:2.000=7.000;\n#WARPS:3.000=7.000;\n"
+        # the version is a number (0.7 or later: the chart's own timing data counts) however it is spelled
+        decoy = "#VERSION:" + (tl.get("version") or "0.83") + ";\n#OFFSET:9.999;\n#BPMS:0.000=77.000;\n#STOPS:1.000=7.000;\n#DELAYS:2.000=7.000;\n#WARPS:3.000=7.000;\n"
         sim = SSCSimfile(string=decoy + "#NOTEDATA:;\n" + body + "#NOTES:\n0000\n0000\n0000\n0000\n;\n")
         return TimingData(sim, sim.charts[0])
     raise ValueError(src)
